@@ -8,6 +8,9 @@
   param_mutations(file)                 every syntactic mutation of a parameter (subscript / attribute store,
                                         augmented assignment, mutating method call) before the parameter is re-bound
   cache_keys(file)                      every module-level `NAME = {}` and, per function using it, the key expression
+  spectrum_operators(Spectrum_mod.py)   the exec-generated arithmetic operators of class Spectrum: per method, does the constructor call
+                                        that builds the result copy its inputs (data AND mask), what are newdata / newmask made from
+  copy_keywords(root)                   every call in dadi/**/*.py (exec templates included) that passes a `copy=` keyword
 
 A translator REFUSES (raises Refuse) when the source leaves the recognised shape; it never guesses.
 """
@@ -19,8 +22,10 @@ class Refuse(Exception):
 
 
 def _parse(path):
+    import warnings
     try:
-        with open(path) as f:
+        with open(path) as f, warnings.catch_warnings():
+            warnings.simplefilter('ignore')          # invalid escape sequences in docstrings of the library
             return ast.parse(f.read())
     except (OSError, SyntaxError) as e:
         raise Refuse('%s: %s' % (path, e))
@@ -392,3 +397,156 @@ def key_covers(desc, module_names, closure_constants=()):
     else:
         need = set(desc['rhs_names']) - _BUILTINS - set(module_names) - set(closure_constants)
     return sorted(need - set(desc['key_names']))
+
+
+# ------------------------------------------------------------------------------------------------------------------
+# Spectrum arithmetic operators (generated with exec from two string templates)
+
+ARITH_BINARY = ['__add__', '__radd__', '__sub__', '__rsub__', '__mul__', '__rmul__', '__div__', '__rdiv__', '__truediv__', '__rtruediv__',
+                '__floordiv__', '__rfloordiv__', '__rpow__', '__pow__']
+ARITH_INPLACE = ['__iadd__', '__isub__', '__imul__', '__idiv__', '__itruediv__', '__ifloordiv__', '__ipow__']
+
+
+def _exec_templates(cls):
+    """[(line, [method names], template text, substitution key)] for every `for NAME in [str, ...]: exec(TEMPLATE % {'key': NAME})` directly in the class body"""
+    out = []
+    for st in cls.body:
+        for n in ast.walk(st):
+            if isinstance(n, ast.Call) and isinstance(n.func, ast.Name) and n.func.id in ('exec', 'eval') and not isinstance(st, ast.For):
+                raise Refuse('class Spectrum: exec/eval outside the recognised `for method in [...]: exec(template)` loops (line %d)' % n.lineno)
+        if not isinstance(st, ast.For):
+            continue
+        has_exec = any(isinstance(n, ast.Call) and isinstance(n.func, ast.Name) and n.func.id == 'exec' for n in ast.walk(st))
+        if not has_exec:
+            continue
+        if not (isinstance(st.target, ast.Name) and isinstance(st.iter, (ast.List, ast.Tuple)) and all(isinstance(e, ast.Constant) and isinstance(e.value, str) for e in st.iter.elts)
+                and len(st.body) == 1 and isinstance(st.body[0], ast.Expr) and isinstance(st.body[0].value, ast.Call) and not st.orelse):
+            raise Refuse('class Spectrum: exec loop at line %d is not `for NAME in [literal strings]: exec(...)`' % st.lineno)
+        call = st.body[0].value
+        if not (isinstance(call.func, ast.Name) and call.func.id == 'exec' and len(call.args) == 1 and not call.keywords):
+            raise Refuse('exec call at line %d has extra arguments' % call.lineno)
+        a = call.args[0]
+        if not (isinstance(a, ast.BinOp) and isinstance(a.op, ast.Mod) and isinstance(a.left, ast.Constant) and isinstance(a.left.value, str)
+                and isinstance(a.right, ast.Dict) and len(a.right.keys) == 1 and isinstance(a.right.keys[0], ast.Constant)
+                and isinstance(a.right.values[0], ast.Name) and a.right.values[0].id == st.target.id):
+            raise Refuse('exec argument at line %d is not TEMPLATE %% {key: loop variable}' % call.lineno)
+        out.append((st.lineno, [e.value for e in st.iter.elts], a.left.value, a.right.keys[0].value))
+    return out
+
+
+def spectrum_operators(path):
+    """{method: {'kind': 'binary' | 'inplace', 'line', 'copy_kw': None | True | False, 'ctor_default_copy': bool, 'masked_array_copy': text,
+                 'newdata': [expr...], 'newmask': [expr...], 'ctor': text}}  - refuses anything it does not recognise"""
+    tree = _parse(path)
+    cls = next((n for n in tree.body if isinstance(n, ast.ClassDef) and n.name == 'Spectrum'), None)
+    if cls is None:
+        raise Refuse('class Spectrum not found')
+    new = next((n for n in cls.body if isinstance(n, ast.FunctionDef) and n.name == '__new__'), None)
+    if new is None:
+        raise Refuse('Spectrum.__new__ not found')
+    # default of the constructor's `copy` parameter, and how it reaches numpy.ma.masked_array
+    params = new.args.args
+    defaults = dict(zip([a.arg for a in params[len(params) - len(new.args.defaults):]], new.args.defaults))
+    if 'copy' not in defaults or not isinstance(defaults['copy'], ast.Constant) or not isinstance(defaults['copy'].value, bool):
+        raise Refuse('Spectrum.__new__: parameter `copy` without a literal True / False default')
+    ctor_default = defaults['copy'].value
+    ma_calls = [n for n in ast.walk(new) if isinstance(n, ast.Call) and ast.unparse(n.func) in ('numpy.ma.masked_array', 'numpy.ma.MaskedArray', 'numpy.ma.array')]
+    if len(ma_calls) != 1:
+        raise Refuse('Spectrum.__new__: expected exactly one numpy.ma.masked_array(...) call, found %d' % len(ma_calls))
+    kw = {k.arg: ast.unparse(k.value) for k in ma_calls[0].keywords}
+    if kw.get('copy') != 'copy' or kw.get('mask') != 'mask':
+        raise Refuse('Spectrum.__new__: numpy.ma.masked_array is not called with mask=mask, copy=copy (%r)' % kw)
+    rebinds = [l for l in _stores_to(new, 'copy')]
+    if rebinds:
+        raise Refuse('Spectrum.__new__ re-binds `copy` (lines %r)' % rebinds)
+    out = {}
+    explicit = [n.name for n in cls.body if isinstance(n, ast.FunctionDef) and n.name in ARITH_BINARY + ARITH_INPLACE]
+    if explicit:
+        raise Refuse('class Spectrum defines %r outside the exec templates' % explicit)
+    for line, methods, template, key in _exec_templates(cls):
+        for m in methods:
+            try:
+                t = ast.parse(template % {key: m})
+            except (SyntaxError, KeyError, ValueError, TypeError) as e:
+                raise Refuse('operator template at line %d does not parse for %s: %s' % (line, m, e))
+            if not (len(t.body) == 1 and isinstance(t.body[0], ast.FunctionDef) and t.body[0].name == m and [a.arg for a in t.body[0].args.args] == ['self', 'other']):
+                raise Refuse('operator template at line %d: not a single `def %s(self, other)`' % (line, m))
+            fn = t.body[0]
+            rets = [n for n in ast.walk(fn) if isinstance(n, ast.Return)]
+            if len(rets) != 1 or not isinstance(rets[0].value, ast.Name):
+                raise Refuse('%s: expected one `return NAME`' % m)
+            if m in out:
+                raise Refuse('%s generated twice' % m)
+            rname = rets[0].value.id
+            if rname == 'self':
+                if m not in ARITH_INPLACE:
+                    raise Refuse('%s returns self but is not an augmented-assignment method' % m)
+                out[m] = {'kind': 'inplace', 'line': line}
+                continue
+            if m not in ARITH_BINARY:
+                raise Refuse('unexpected generated method %s' % m)
+            asg = [n for n in ast.walk(fn) if isinstance(n, ast.Assign) and len(n.targets) == 1 and isinstance(n.targets[0], ast.Name)]
+            def rhs(name):
+                return [ast.unparse(n.value) for n in asg if n.targets[0].id == name]
+            ctor = [n.value for n in asg if n.targets[0].id == rname]
+            if len(ctor) != 1 or not isinstance(ctor[0], ast.Call) or ast.unparse(ctor[0].func) != 'self.__class__.__new__':
+                raise Refuse('%s: the result is not built by one self.__class__.__new__(...) call' % m)
+            c = ctor[0]
+            pos = [ast.unparse(a) for a in c.args]
+            if pos != ['self.__class__', 'newdata', 'newmask']:
+                raise Refuse('%s: constructor positional arguments are %r, expected (self.__class__, newdata, newmask)' % (m, pos))
+            ckw = {k.arg: k.value for k in c.keywords}
+            if None in ckw:
+                raise Refuse('%s: constructor called with **kwargs' % m)
+            copy_kw = None
+            if 'copy' in ckw:
+                if not (isinstance(ckw['copy'], ast.Constant) and isinstance(ckw['copy'].value, (bool, int))):
+                    raise Refuse('%s: copy= is not a literal' % m)
+                copy_kw = bool(ckw['copy'].value)
+            nd, nm = rhs('newdata'), rhs('newmask')
+            ok_nd = all(re.fullmatch(r'self\.data\.%s\((other\.data|other)\)' % re.escape(m), x) for x in nd) and nd
+            ok_nm = all(x in ('numpy.ma.mask_or(self.mask, other.mask)', 'self.mask') for x in nm) and nm
+            if not ok_nd or not ok_nm:
+                raise Refuse('%s: newdata / newmask are built from %r / %r' % (m, nd, nm))
+            out[m] = {'kind': 'binary', 'line': line, 'copy_kw': copy_kw, 'ctor_default_copy': ctor_default, 'newdata': nd, 'newmask': nm,
+                      'copies': bool(ctor_default if copy_kw is None else copy_kw), 'ctor': ast.unparse(c)[:200]}
+    return out
+
+
+def copy_keywords(root):
+    """['<file>:<function>:<callee>(copy=<expr>)'] for every call under root (dadi/) that passes a `copy` keyword; the text of exec templates
+    of class bodies is scanned too (a regular expression on every string constant that contains `def `)"""
+    import os
+    out = []
+    for dp, dn, fn in os.walk(root):
+        dn.sort()
+        if '__pycache__' in dp:
+            continue
+        for f in sorted(fn):
+            if not f.endswith('.py'):
+                continue
+            path = os.path.join(dp, f)
+            rel = os.path.relpath(path, root)
+            tree = _parse(path)
+            parents = {}
+            for node in ast.walk(tree):
+                for ch in ast.iter_child_nodes(node):
+                    parents[ch] = node
+            def owner(n):
+                names = []
+                while n in parents:
+                    n = parents[n]
+                    if isinstance(n, (ast.FunctionDef, ast.ClassDef, ast.AsyncFunctionDef)):
+                        names.append(n.name)
+                return '.'.join(reversed(names)) or '<module>'
+            for n in ast.walk(tree):
+                if isinstance(n, ast.Call):
+                    for k in n.keywords:
+                        if k.arg == 'copy':
+                            out.append('%s:%s:%s(copy=%s)' % (rel, owner(n), ast.unparse(n.func)[-40:], ast.unparse(k.value)))
+                        if k.arg is None:
+                            pass
+                elif isinstance(n, ast.Constant) and isinstance(n.value, str) and 'def ' in n.value and re.search(r'\bcopy\s*=', n.value):
+                    for mt in re.finditer(r'\bcopy\s*=\s*([A-Za-z0-9_.]+)', n.value):
+                        out.append('%s:%s:<string template>(copy=%s)' % (rel, owner(n), mt.group(1)))
+    return sorted(out)
